@@ -46,13 +46,13 @@ type multipartID struct {
 
 func CombineMultipartDeliverSM(on func([]*DeliverSM)) func(*DeliverSM) {
 	registry := make(map[multipartID][]*DeliverSM)
-	isDone := func(id multipartID, total byte) bool {
-		for _, sm := range registry[id] {
-			if sm != nil {
-				total--
+	isDone := func(parts []*DeliverSM) bool {
+		for _, sm := range parts {
+			if sm == nil {
+				return false
 			}
 		}
-		return total == 0
+		return true
 	}
 	return func(p *DeliverSM) {
 		header := p.Message.UDHeader.ConcatenatedHeader()
@@ -60,12 +60,19 @@ func CombineMultipartDeliverSM(on func([]*DeliverSM)) func(*DeliverSM) {
 			on([]*DeliverSM{p})
 		} else {
 			id := multipartID{p.SourceAddr, p.DestAddr, header.Reference}
-			if _, ok := registry[id]; !ok {
-				registry[id] = make([]*DeliverSM, header.TotalParts)
+			parts, ok := registry[id]
+			if !ok {
+				parts = make([]*DeliverSM, header.TotalParts)
 			}
-			registry[id][header.Sequence-1] = p
-			if isDone(id, header.TotalParts) {
-				on(registry[id])
+			// a segment numbered 0 or above its total, or announcing another
+			// total than the message in progress, is ignored
+			if header.Sequence == 0 || header.Sequence > header.TotalParts || int(header.TotalParts) != len(parts) {
+				return
+			}
+			registry[id] = parts
+			parts[header.Sequence-1] = p
+			if isDone(parts) {
+				on(parts)
 				delete(registry, id)
 			}
 		}
